@@ -38,6 +38,8 @@ func main() {
 		err = c01Child(*replay)
 	case "c14":
 		err = c14Main(*seed, *n, *out, *repo)
+	case "c18lib":
+		err = c18Lib(*srcfile, *out, fs.Args())
 	case "c19child":
 		err = c19Child(*replay, *out, *n)
 	case "c19":
